@@ -48,6 +48,7 @@ class Normalizer:
         self.signcache = {}
         self.n = itertools.count()
         self.laws = set()
+        self.parity = {}
 
     # ---------------------------------------------------------------- helpers
     def new(self, prefix, meaning, **assume):
@@ -211,6 +212,18 @@ class Normalizer:
         if e.is_Pow:
             b, x = e.args
             if b == sp.E: return self.nexp(x)
+            if b == -1 and x.is_integer and not x.is_number:
+                # (-1)^(integer expression): product of parity atoms Z_s (Z_s^2 = 1), one per integer symbol with odd coefficient
+                r = sp.Integer(1); ok = True
+                for tm in sp.Add.make_args(sp.expand(x)):
+                    c_, m_ = tm.as_coeff_Mul()
+                    if m_ == 1 and c_.is_Integer: r = r * (-1) ** (int(c_) % 2); continue
+                    if not (c_.is_Integer and m_.is_integer): ok = False; break
+                    if int(c_) % 2:
+                        if m_ not in self.parity: self.parity[m_] = self.new('Z', sp.Pow(-1, m_), real=True)
+                        r = r * self.parity[m_]
+                if ok:
+                    self.laws.add('((-1)^n)^2=1 for integer n'); return r
             if x.is_Integer and isinstance(b, sp.Abs) and int(x) % 2 == 0: return self.norm(b.args[0]) ** x
             if x.is_Integer: return self.norm(b) ** x
             nb = self.norm(b)
@@ -249,6 +262,17 @@ class Normalizer:
             return self.fsym(e)
         if isinstance(e, sp.Piecewise): raise Undecided('piecewise')
         if e.args:
+            if len(e.args) == 1 and isinstance(e, (sp.acos, sp.asin, sp.atan, sp.acot, sp.erf, sp.erfc)):
+                # canonical argument through the normaliser itself (radicals inside the argument are normalised too)
+                try:
+                    terms = self.canon_arg(e.args[0])
+                    carg = sp.Add(*[c * m for c, m in terms])
+                    key = (e.func.__name__, carg)
+                    if key not in self.fsyms:
+                        self.fsyms[key] = self.new('F', e.func(self.orig(carg)), real=True)
+                    return self.fsyms[key]
+                except (Undecided, NeedSplit):
+                    pass
             try:
                 ce = e.func(*[self.cargs(a) if isinstance(a, sp.Expr) else a for a in e.args])
             except Exception:
@@ -439,7 +463,7 @@ class Normalizer:
                 offs[base] = c0
             key = frozenset(key)
             groups.setdefault(key, []).append((coeff, offs))
-        residual = sp.Integer(0)
+        residual = sp.Integer(0); all_zero = True
         for key, members in groups.items():
             bases = set()
             for _, offs in members: bases |= set(offs)
@@ -468,8 +492,10 @@ class Normalizer:
             else:
                 z, res = self.zero_rel(total, rootrel, depth)
             if not z:
-                residual += res
-        return residual == 0, residual
+                # residuals of different monomial groups must never be added together (they multiply independent power monomials)
+                all_zero = False
+                residual += sp.Symbol('GROUP%d_' % len(groups), positive=True) ** (1 + abs(hash(key)) % 97) * res if False else sp.Abs(res)
+        return all_zero, (sp.Integer(0) if all_zero else residual)
 
     def zero_rel(self, total, rootrel, depth):
         """zero test of a rational expression modulo root relations and sin^2+cos^2=1"""
@@ -486,6 +512,13 @@ class Normalizer:
                         bb = self.subst_defs(b) if isinstance(b, sp.Basic) else b
                         new = sp.Integer(0)
                         for (i,), c in p.terms(): new += c * R ** (i % D) * bb ** (i // D)
+                        n = sp.expand(new); changed = True
+            for m_, Z in self.parity.items():
+                if Z in n.free_symbols:
+                    p = sp.Poly(n, Z)
+                    if p.degree() >= 2:
+                        new = sp.Integer(0)
+                        for (i,), c in p.terms(): new += c * Z ** (i % 2)
                         n = sp.expand(new); changed = True
             for a, (S, C) in self.trig.items():
                 if C in n.free_symbols:
@@ -575,10 +608,17 @@ def eval_cond(c, pt):
         op = c.rel_op
         if op in ('==', '!='):
             # equality at 30 digits: zero up to evaluation noise
-            sc_ = abs(numeric(c.lhs, pt, 30)) + abs(numeric(c.rhs, pt, 30)) + sp.Float('1e-30')
-            z = bool(abs(d) <= sp.Float('1e-22') * sc_)
+            # zero up to evaluation noise: relative to the size of the terms that are added (a single product is exact up to rounding: never 'zero' unless 0)
+            terms_ = sp.Add.make_args(sp.expand(c.lhs - c.rhs) if len(str(c)) < 600 else (c.lhs - c.rhs))
+            sc_ = sum(abs(numeric(t_, pt, 30)) for t_ in terms_) if len(terms_) > 1 else sp.Integer(0)
+            z = bool(d == 0) or bool(abs(d) <= sp.Float('1e-22') * sc_)
             return z if op == '==' else not z
-        return {'<': d < 0, '<=': d <= 0, '>': d > 0, '>=': d >= 0}[op]
+        # evalf returns an *approximate* zero (e.g. 0.e-165, tiny but signed) for exact cancellations: values below the evaluation noise of the
+        # added terms count as zero (strict relations false, non-strict true)
+        terms_ = sp.Add.make_args(c.lhs - c.rhs)
+        sc_ = sum(abs(numeric(t_, pt, 30)) for t_ in terms_) if len(terms_) > 1 else sp.Integer(0)
+        if bool(abs(d) <= sp.Float('1e-22') * sc_): return op in ('<=', '>=')
+        return bool({'<': d < 0, '<=': d <= 0, '>': d > 0, '>=': d >= 0}[op])
     raise ValueError('cannot evaluate %r' % (c,))
 
 
@@ -716,3 +756,56 @@ def refute(e, points, prec=40, tol=1e-18):
         except Exception:
             continue
     return None, None
+
+
+def binomial_sign(e, hyps=(), smt_timeout=3000):
+    """sign analysis of an expression whose normal form has exactly two power-monomial terms  c*(M1 - M2)*positive:
+    if M1/M2 == (b1/b2)^d  with d of known sign, then  sign(e) = sign(c) * sign(d) * sign(b1 - b2).
+    Returns (c_sign * d_sign, b1, b2) or None.  Used to derive sign lemmas for rarefaction wave-curve terms (monotonicity of real powers, A3)."""
+    try:
+        nz = Normalizer(hyps, smt_timeout)
+        N = nz.norm(sp.sympify(e))
+        n, d = sp.fraction(sp.together(N))
+        if nz.sign(nz.merge_gp(d)) == 0:
+            # denominator: product of positive atoms expected
+            cf, fl, sg = nz.factors(d)
+            dsign = sg
+        else:
+            dsign = nz.sign(nz.merge_gp(d))
+        terms = sp.Add.make_args(sp.expand(n))
+        if len(terms) != 2: return None
+        monos = [nz.canon_mono(t_) for t_ in terms]
+        (c1, m1), (c2, m2) = monos
+        if not (c1.is_Rational and c2.is_Rational and c1 == -c2): 
+            # allow positive symbolic cofactors common to both terms
+            return None
+        def exps(m):
+            out = {}
+            for f in sp.Mul.make_args(m):
+                b, k = f.as_base_exp()
+                if isinstance(b, GP) and k.is_Integer: out[b.args[0]] = out.get(b.args[0], 0) + k * b.args[1]
+                elif f.is_Symbol or (f.is_Pow and f.base.is_Symbol and f.exp.is_Integer):
+                    out[f.as_base_exp()[0]] = out.get(f.as_base_exp()[0], 0) + f.as_base_exp()[1]
+                elif f == 1: pass
+                else: return None
+            return out
+        e1, e2 = exps(m1), exps(m2)
+        if e1 is None or e2 is None: return None
+        diff = {}
+        for b in set(e1) | set(e2):
+            dd = sp.cancel(sp.together(e1.get(b, 0) - e2.get(b, 0)))
+            if dd != 0: diff[b] = dd
+        if len(diff) != 2: return None
+        (b1, d1), (b2, d2) = list(diff.items())
+        if sp.cancel(d1 + d2) != 0: return None
+        if b1 in nz.defs or b2 in nz.defs: return None
+        ok, _ = smt.valid(hyps, d1 > 0, smt_timeout)
+        if ok: s_ = 1
+        else:
+            ok, _ = smt.valid(hyps, d1 < 0, smt_timeout)
+            if not ok: return None
+            s_ = -1
+        cs = 1 if c1 > 0 else -1
+        return cs * s_ * dsign, b1, b2
+    except (Undecided, NeedSplit):
+        return None
